@@ -110,6 +110,19 @@ fn same_mod_rotation(t: u8, a: &[u8], b: &[u8]) -> bool {
     true
 }
 
+struct Dribble { buf: Vec<u8>, k: usize, calls: usize }
+impl tokio::io::AsyncWrite for Dribble {
+    fn poll_write(mut self: std::pin::Pin<&mut Self>, cx: &mut std::task::Context<'_>, b: &[u8]) -> std::task::Poll<std::io::Result<usize>> {
+        self.calls += 1;
+        if self.calls % 3 == 2 { cx.waker().wake_by_ref(); return std::task::Poll::Pending; }
+        let n = b.len().min(self.k);
+        self.buf.extend(&b[..n]);
+        std::task::Poll::Ready(Ok(n))
+    }
+    fn poll_flush(self: std::pin::Pin<&mut Self>, _: &mut std::task::Context<'_>) -> std::task::Poll<std::io::Result<()>> { std::task::Poll::Ready(Ok(())) }
+    fn poll_shutdown(self: std::pin::Pin<&mut Self>, _: &mut std::task::Context<'_>) -> std::task::Poll<std::io::Result<()>> { std::task::Poll::Ready(Ok(())) }
+}
+
 fn roundtrip<P: Packetize + PartialEq2>(t: u8, bytes0: &[u8]) -> Vec<i64> {
     let b0 = bytes0.to_vec();
     let res = std::panic::catch_unwind(move || {
@@ -118,9 +131,11 @@ fn roundtrip<P: Packetize + PartialEq2>(t: u8, bytes0: &[u8]) -> Vec<i64> {
         let o2 = P::try_from(b2.clone()).ok()?;
         let ok = o.same(&o2) && same_mod_rotation(t, &b0, &b2);
         let frame: Vec<u8> = rt().block_on(async {
-            let mut s = Stream::new(Vec::<u8>::new());
+            // a transport that takes a few bytes per write and is not always ready (a socket with a nearly full
+            // buffer): what arrives must still be the whole frame
+            let mut s = Stream::new(Dribble { buf: Vec::new(), k: 1 + b0.len() % 13, calls: 0 });
             s.send_packet(&o).await.unwrap();
-            s.inner().clone()
+            s.inner().buf.clone()
         });
         Some((ok, frame, b2))
     });
